@@ -136,8 +136,15 @@ fn same_output(a: &SlipRef, b: &SlipRef) -> bool {
 
 /// the per-block oracle. `before` = reference ledger just before `rec`; `expiring` = record of the
 /// block at id - (gp+1) on the same chain
-fn check_rebroadcast(r: &mut RunResult, rec: &BlockRec, expiring: &BlockRec, before: &RefLedger, header: (u64, u64)) -> (u64, u64) {
+fn check_rebroadcast(r: &mut RunResult, rec: &BlockRec, expiring: &BlockRec, before: &RefLedger, header: (u64, u64), fee_level: u64, multiplier_is_one: bool) -> (u64, u64) {
     let (total_fees_atr, total_payout_atr) = header;
+    // the rebroadcast fee of an output: serialized size of the transaction that created it x the fee level
+    // (average fee per byte) recorded in the parent of the rebroadcasting block
+    let tx_sizes: Vec<u64> = match saito_core::core::consensus::block::Block::deserialize_from_net(&expiring.bytes) {
+        Ok(b) => b.transactions.iter().map(|t| t.get_serialized_size() as u64).collect(),
+        Err(_) => vec![],
+    };
+    let fee_of = |s: &SlipRef| -> Option<u128> { tx_sizes.get(s.tx_ordinal as usize).map(|sz| *sz as u128 * fee_level as u128) };
     // U: outputs of the expiring block still unspent
     let mut u: Vec<SlipRef> = vec![];
     for tx in &expiring.txs {
@@ -222,8 +229,38 @@ fn check_rebroadcast(r: &mut RunResult, rec: &BlockRec, expiring: &BlockRec, bef
                     r.violate("C13|atr|bound-slip-on-plain-rebroadcast", format!("block {}: rebroadcast of plain output {}-{}-{} carries bound slips", rec.id, inp.block_id, inp.tx_ordinal, inp.slip_index));
                     return (0, 0);
                 }
+                if let Some(fee) = fee_of(&u[p]) {
+                    let charged = inp.amount as u128 - outs[0].amount as u128;
+                    if charged != fee {
+                        r.violate(
+                            "C13|atr|fee-differs-from-rule",
+                            format!("block {}: rebroadcast of {}-{}-{} charges {} but transaction size x parent fee level {} is {}", rec.id, inp.block_id, inp.tx_ordinal, inp.slip_index, charged, fee_level, fee),
+                        );
+                        return (0, 0);
+                    }
+                    if fee > 0 {
+                        r.probe("rebroadcast_fee_checked_nonzero");
+                    }
+                }
                 sum_out += outs[0].amount as u128;
                 rebroadcast += 1;
+            }
+        }
+    }
+    // what was collected instead of rebroadcast could not pay the fee (judged where the treasury payout
+    // multiplier is 1, i.e. the output is worth exactly its amount)
+    if multiplier_is_one {
+        for (x, m) in u.iter().zip(matched.iter()) {
+            if !*m && !triples.iter().any(|(_, pl, _)| same_output(pl, x)) {
+                if let Some(fee) = fee_of(x) {
+                    if (x.amount as u128) > fee {
+                        r.violate(
+                            "C13|atr|collected-although-it-covers-the-fee",
+                            format!("block {}: output {}-{}-{} worth {} was collected as fees although the rebroadcast fee is {}", rec.id, x.block_id, x.tx_ordinal, x.slip_index, x.amount, fee),
+                        );
+                        return (0, 0);
+                    }
+                }
             }
         }
     }
@@ -251,7 +288,7 @@ impl Scenario for C13 {
     fn meta(&self) -> Meta {
         Meta {
             level: "exploration",
-            rule: "run = real producer over genesis period 3..8 for 2-3 (quick) / 2-4 (thorough) windows; every block has 1-4 payments with fee class {0, small, large} (drives avg_fee_per_byte and so the rebroadcast fee) and optional dust outputs (1..2000 nolan); in 1 block of 4 one transaction creates an NFT group (Bound, payload, Bound) with a tiny / half / nearly-all deposit, which must be rebroadcast as a group (both bound slips unchanged around the payload) or collected; golden ticket every other block; in half of the runs one height early in the history holds a sibling block that reached the node first and was reorganised away (so the height has an orphan stored before its longest-chain block when it expires). For every accepted block B with id > gp+1: U = outputs of the chain's block at id-(gp+1) that are unspent in the reference ledger just before B. Oracle: B's ATR transactions are in bijection with a subset of U (same output identity, one ATR output to the same owner, 0 < amount <= input), nothing outside U and nothing twice, and sum(U) + total_payout_atr == sum(ATR outputs) + total_fees_atr in u128 (what is not rebroadcast is collected as fees). After B no member of U is spendable: an output older than the window offered as an input must be rejected by the pool and by block validation. distinct_nontrivial = distinct (genesis period, block id, |U|, rebroadcast count, dust count) of expiring blocks with |U| >= 1.",
+            rule: "run = real producer over genesis period 3..8 for 2-3 (quick) / 2-4 (thorough) windows; every block has 1-4 payments with fee class {0, small, large} (drives avg_fee_per_byte and so the rebroadcast fee) and optional dust outputs (1..2000 nolan); in 1 block of 4 one transaction creates an NFT group (Bound, payload, Bound) with a tiny / half / nearly-all deposit, which must be rebroadcast as a group (both bound slips unchanged around the payload) or collected; golden ticket every other block; in half of the runs one height early in the history holds a sibling block that reached the node first and was reorganised away (so the height has an orphan stored before its longest-chain block when it expires). For every accepted block B with id > gp+1: U = outputs of the chain's block at id-(gp+1) that are unspent in the reference ledger just before B. Oracle: B's ATR transactions are in bijection with a subset of U (same output identity, one ATR output to the same owner, 0 < amount <= input, and the amount charged equals the serialized size of the transaction that created the output x the average fee per byte recorded in B's parent; where the treasury multiplier is 1 an output collected instead is not worth more than that fee), nothing outside U and nothing twice, and sum(U) + total_payout_atr == sum(ATR outputs) + total_fees_atr in u128 (what is not rebroadcast is collected as fees). After B no member of U is spendable: an output older than the window offered as an input must be rejected by the pool and by block validation. distinct_nontrivial = distinct (genesis period, block id, |U|, rebroadcast count, dust count) of expiring blocks with |U| >= 1.",
             real: &["Block::generate_consensus_values (ATR section)", "Transaction::create_rebroadcast_transaction", "Block::validate (rebroadcast hash / slip count)", "Blockchain::add_block, prune/downgrade/delete_blocks", "Storage::load_block_from_disk"],
             stubs: &["SimIo", "SimConfig", "vendored ahash"],
             assumptions: &["NFT groups are created (Bound-Normal-Bound) and rebroadcast, not transferred, in this family", "staking off"],
@@ -345,7 +382,14 @@ impl Scenario for C13 {
                     let b = c.node.bc.get_block(&rec.hash).unwrap();
                     (b.total_fees_atr, b.total_payout_atr)
                 };
-                let (rb, dust) = check_rebroadcast(&mut r, &rec, &expiring, &before, hdr);
+                let (fee_level, mult_one) = match c.node.bc.get_block(&rec.parent) {
+                    Some(pb) => {
+                        let staked = plan.gp as u128 * pb.avg_nolan_rebroadcast_per_block as u128;
+                        (pb.avg_fee_per_byte, staked == 0 || (pb.treasury as u128) < staked)
+                    }
+                    None => (0, false),
+                };
+                let (rb, dust) = check_rebroadcast(&mut r, &rec, &expiring, &before, hdr, fee_level, mult_one);
                 if !r.violations.is_empty() {
                     break;
                 }
